@@ -44,7 +44,7 @@ pub fn gen(seed: u64, _tier: Tier) -> ScenarioSpec {
         spec.opts.skip_frames = true;
     }
     spec.opts.compute_hash = rng.chance(1, 4);
-    spec.knobs.insert("prelude".into(), gen_prelude(&mut rng, &[1, 2, 4, 5], 6));
+    spec.knobs.insert("prelude".into(), gen_prelude(&mut rng, &[1, 2, 4, 5, 6, 6], 4));
     spec
 }
 
